@@ -84,6 +84,10 @@ func (i c04Inst) ask(t *testing.T, q c04Q, id uint16) (a c04Ans, up bool) {
 		QClass:   q.QClass,
 	}
 	ctx := agd.ContextWithRequestInfo(context.Background(), ri)
+	// the server stamps every request with its time of ARRIVAL; the cache's clock is the time of
+	// processing, which may be later (worker queue, rate limiting, filtering)
+	ctx = dnsserver.ContextWithRequestInfo(ctx, &dnsserver.RequestInfo{
+		StartTime: VerifNow().Add(-[]time.Duration{0, 250 * time.Millisecond, 2 * time.Second, 5 * time.Second}[int(id)%4])})
 	if err := i.h.ServeDNS(ctx, rw, req); err != nil {
 		t.Fatalf("ServeDNS: %v", err)
 	}
@@ -145,33 +149,3 @@ func TestVerifC04ECS(t *testing.T) {
 	}
 }
 
-// TestVerifC04ECSAges: fromCacheItem at every age from 0 to ttl in quarter seconds.
-func TestVerifC04ECSAges(t *testing.T) {
-	out := vhOpen(t)
-	clk := &c04Clock{}
-	VerifNow = clk.Now
-	gcache.VerifNow = clk.Now
-	cloner := agdtest.NewCloner()
-	empty := c04Ans{TTLs: []int{}}
-	beh := 0
-	for _, name := range []string{"a.1.k.example.", "a.2.k.example.", "c.3.k.example.", "n.2.k.example.", "x.1.k.example.", "g.3.k.example."} {
-		q := c04Q{Name: name, QType: dns.TypeA, QClass: dns.ClassINET, Loc: "AU"}
-		req := c04Req(q, 7)
-		resp := c04Upstream(req)
-		cacheable, life := c04Oracle(resp, false, 0)
-		fresh := c04Digest(resp)
-		out.Emit(c04Event{Ev: "Reset", Cache: "ecs-item", Beh: beh, Fresh: empty, Got: empty})
-		clk.q = 0
-		item := toCacheItem(cloner.Clone(resp), "host")
-		out.Emit(c04Event{Ev: "Query", Now: 0, Key: c04Key(q, false), Q: q, Up: true, Cacheable: cacheable, Life: life,
-			Fresh: fresh, Got: fresh, Beh: beh, Cache: "ecs-item"})
-		for age := 0; age <= life*4; age++ {
-			clk.q = age
-			got := c04Digest(fromCacheItem(item, cloner, req, false))
-			out.Emit(c04Event{Ev: "Query", Now: age, Key: c04Key(q, false), Q: q, Up: false, Cacheable: cacheable, Life: life,
-				Fresh: fresh, Got: got, Beh: beh, Cache: "ecs-item"})
-			out.Emit(c04Event{Ev: "Tick", D: 1, Now: age + 1, Beh: beh, Fresh: empty, Got: empty})
-		}
-		beh++
-	}
-}
